@@ -13,6 +13,9 @@ pub enum Step {
     /// write an input file and give it a modification time in the past (a file restored by
     /// `cp -p`, tar or a VCS checkout)
     WriteOld(String, Vec<u8>),
+    /// replace the content of an existing input file by other bytes of the same length and put its
+    /// modification time back (`cp -p`, `rsync -t`, an edit within the clock's granularity)
+    WriteSameStamp(String, Vec<u8>),
     Mkdir(String),
     Remove(String),
     OutWrite(String, Vec<u8>),
@@ -389,6 +392,14 @@ fn apply(root: &Path, outdir: &Path, s: &Step) {
                 let _ = f.set_modified(SystemTime::now() - Duration::from_secs(3600));
             }
         }
+        Step::WriteSameStamp(rel, c) => {
+            let p = indir.join(rel);
+            let old = std::fs::metadata(&p).and_then(|m| m.modified()).ok();
+            let _ = std::fs::write(&p, c);
+            if let (Some(t), Ok(f)) = (old, std::fs::File::options().write(true).open(&p)) {
+                let _ = f.set_modified(t);
+            }
+        }
         Step::Mkdir(rel) => {
             let _ = std::fs::create_dir_all(indir.join(rel));
         }
@@ -647,6 +658,21 @@ fn statics_scenario(r: &mut Rng, twin: usize) -> Scenario {
     }
     let mut steps = dedup_steps(steps);
     steps.push(Step::Run);
+    if r.chance(1, 3) {
+        // a second run into the same OUT_DIR after the content of an input changed at the same size and
+        // with the same modification time: the published name must follow the content
+        let cands: Vec<(String, Vec<u8>)> = steps
+            .iter()
+            .filter_map(|s| if let Step::Write(p, c) = s { if !c.is_empty() && (p.starts_with("static/") || p.starts_with("single/") || p.starts_with("as/")) { Some((p.clone(), c.clone())) } else { None } } else { None })
+            .collect();
+        if !cands.is_empty() {
+            let (p, mut c) = r.pick(&cands).clone();
+            let i = r.below(c.len());
+            c[i] = c[i].wrapping_add(1 + r.below(200) as u8);
+            steps.push(Step::WriteSameStamp(p, c));
+            steps.push(Step::Run);
+        }
+    }
     Scenario { kind: "statics", steps, script, twin }
 }
 
